@@ -768,26 +768,48 @@ def shard(arg):
         cases = corpus_cases() + cases
     os.makedirs(SCRATCH, exist_ok=True)
     pairs = []
-    for case in cases:
-        res.evaluations += 1
-        obs, fail = judge(case)
-        pairs.append((case, obs))
-        res.count('root:' + case['root']['kind'])
-        res.count('outcome:' + obs['outcome'])
-        res.count('depth:%d' % (len(G.reachable(case)) - 1))
-        res.count('executed' if obs['sentinel'] else 'not-executed')
-        k = key_of(case)
-        if k:
-            res.nontrivial.add(k)
-        if fail:
-            res.failures.append(fail)
-    compare_reach(pairs, res)
-    compare_render(pairs, res)
-    compare_parse(rng, max(20, nrandom), res)
-    if idx == 0:
-        compare_parseopt(res)
+    try:
+        for case in cases:
+            res.evaluations += 1
+            obs, fail = judge(case)
+            pairs.append((case, obs))
+            res.count('root:' + case['root']['kind'])
+            res.count('outcome:' + obs['outcome'])
+            res.count('depth:%d' % (len(G.reachable(case)) - 1))
+            res.count('executed' if obs['sentinel'] else 'not-executed')
+            k = key_of(case)
+            if k:
+                res.nontrivial.add(k)
+            if fail:
+                res.failures.append(fail)
+        compare_reach(pairs, res)
+        compare_render(pairs, res)
+        compare_parse(rng, max(20, nrandom), res)
+        if idx == 0:
+            compare_parseopt(res)
+    finally:
+        _drop_scratch()
     res.samples = cases[:2]
     return res
+
+
+def _drop_scratch():
+    """remove this process's scratch directory, and .build/c14 itself once it is empty (other
+    checks of this property may be running: nobody else's directory is touched, except those
+    of processes that no longer exist)"""
+    if Workdir._path:
+        shutil.rmtree(Workdir._path, ignore_errors=True)
+        Workdir._path = None
+    try:
+        for d in os.listdir(SCRATCH):
+            if d.startswith('w') and d[1:].isdigit():
+                try:
+                    os.kill(int(d[1:]), 0)
+                except OSError:
+                    shutil.rmtree(os.path.join(SCRATCH, d), ignore_errors=True)
+        os.rmdir(SCRATCH)
+    except OSError:
+        pass
 
 
 def run(ctx):
@@ -797,7 +819,7 @@ def run(ctx):
         for r in pmap('harness.props.c14', 'shard', [(ctx.seed, i, nsh, ctx.n(150, 3000), ctx.thorough) for i in range(nsh)], procs=nsh):
             res.merge(r)
     finally:
-        shutil.rmtree(SCRATCH, ignore_errors=True)
+        _drop_scratch()
     res.rule = ('exhaustive: 3 classes x every way of bringing the root into existence x flag settings x option '
                 'spellings (all letter cases) x include chains of depth <= 3 x code block in the deepest template or '
                 'none, plus placements and run-time includes; seeded random include graphs with cycles and '
@@ -808,17 +830,17 @@ def run(ctx):
 
 def search(ctx, res, broken):
     found = []
-    for d in res.disagreements[:200]:
-        _, f = judge(d['case'])
-        if f:
-            found.append(f)
-    if found:
-        return found
     try:
+        for d in res.disagreements[:200]:
+            f = replay(ctx, d['case'])
+            if f:
+                found.append(f)
+        if found:
+            return found
         for r in pmap('harness.props.c14', 'shard', [(ctx.seed + 1000, i, 8, 2000, False) for i in range(8)], procs=8):
             found.extend(r.failures)
     finally:
-        shutil.rmtree(SCRATCH, ignore_errors=True)
+        _drop_scratch()
     return found
 
 
@@ -893,11 +915,5 @@ def replay(ctx, case):
     try:
         _, f = judge(case)
     finally:
-        # this process's scratch directory (replays run after the shards have cleaned up)
-        if Workdir._path:
-            shutil.rmtree(Workdir._path, ignore_errors=True)
-        try:
-            os.rmdir(SCRATCH)
-        except OSError:
-            pass
+        _drop_scratch()
     return f
